@@ -35,8 +35,11 @@ template <typename T>
 void fill_op(T& t, const int n, const int m) {
   for (int i = 0; i != n; ++i) {
     for (int j = 0; j != m; ++j) {
-      t(i, j) = verif::make_input("k" + std::to_string(i) + "_" + std::to_string(j),
-                                  verif::shadow_value("k" + std::to_string(i), j));
+      const auto name = "k" + std::to_string(i) + "_" + std::to_string(j);
+      const auto& o = verif::shadow_overrides();
+      const auto q = o.find(verif::current_unit() + " " + name);
+      t(i, j) = verif::make_input(
+          name, q != o.end() ? q->second : verif::shadow_value("k" + std::to_string(i), j));
     }
   }
 }
